@@ -8,10 +8,10 @@
 (***************************************************************************)
 EXTENDS XlFuncs
 
-D == INSTANCE XlDate
-G == INSTANCE XlAgg
-K == INSTANCE XlCrit
-F == INSTANCE XlFin
+LibDate == INSTANCE XlDate
+LibAgg == INSTANCE XlAgg
+LibCrit == INSTANCE XlCrit
+LibFin == INSTANCE XlFin
 
 HasErr(a) == \E i \in 1..Len(a) : a[i].t = "err"
 HasDate(a) == \E i \in 1..Len(a) : a[i].t = "date"
@@ -20,10 +20,10 @@ LibCall(f, a) ==
     CASE f \in TextFuncs -> TextCall(f, a)
       [] f \in InfoFuncs -> InfoCall(f, a)
       \* operators on dates are XlDate's business (serial arithmetic), everything else XlValues'
-      [] f \in OpFuncs -> IF HasDate(a) /\ f \in D!DateOpFuncs THEN D!DateCall(f, a) ELSE OpCall(f, a)
-      [] f \in D!DateFuncs -> D!DateCall(f, a)
-      [] f \in G!AggFuncs -> IF HasErr(a) THEN Open ELSE G!AggCall(f, a)
-      [] f \in K!CritFuncs -> K!CritCall(f, a)
-      [] f \in F!FinFuncs -> F!FinCall(f, a)
+      [] f \in OpFuncs -> IF HasDate(a) /\ f \in LibDate!DateOpFuncs THEN LibDate!DateCall(f, a) ELSE OpCall(f, a)
+      [] f \in LibDate!DateFuncs -> LibDate!DateCall(f, a)
+      [] f \in LibAgg!AggFuncs -> IF HasErr(a) THEN Open ELSE LibAgg!AggCall(f, a)
+      [] f \in LibCrit!CritFuncs -> LibCrit!CritCall(f, a)
+      [] f \in LibFin!FinFuncs -> LibFin!FinCall(f, a)
       [] OTHER -> Open
 =============================================================================
